@@ -6,7 +6,9 @@
            model_eq = the history consists of exactly the calls of the input programs.
    probe : prop_ok  = nothing ran while the harness held the lock exclusively, and nothing changed
                       the recency order while the harness held it shared;
-           model_eq = ran/blocked as predicted from the lock table read from the Go source. *)
+           model_eq = ran/blocked as predicted from the lock table read from the Go source.
+   shape : prop_ok  = the method body is ONE exclusive critical section (Lock first, defer Unlock
+                      next, no other lock call): what Conc.LockedObject assumes of the method. *)
 open Model
 open Vutil
 
@@ -56,8 +58,14 @@ let check inp obs =
     let prop = (r = obs) && t_ok in
     let eq = (m = obs) && (p = obs) in
     let hits = List.length (List.filter (fun s -> String.length s > 2 && String.sub s 0 2 = "v:" && s <> "v:0") obs_l) in
+    let buckets = List.map int_of_n (r_buckets (r_new cap) pops) in
+    let hasb b = List.mem b buckets in
     let tags = String.concat "," (List.filter (fun x -> x <> "") [
       "seq"; (if cap = N0 then "cap-default" else "cap-" ^ hex_of_n cap);
+      (if hasb 1 then "get-miss" else ""); (if hasb 2 then "get-hit-front" else "");
+      (if hasb 3 then "get-hit-moved" else ""); (if hasb 4 then "put-update-front" else "");
+      (if hasb 5 then "put-update-moved" else ""); (if hasb 6 then "put-insert" else "");
+      (if hasb 7 then "put-insert-evict" else "");
       (if hits > 0 then "hit" else ""); (if List.mem "v:0" obs_l then "miss-or-zero" else "");
       (if List.length pops > int_of_n (if cap = N0 then n_of_int 20 else cap) then "may-evict" else "") ]) in
     { prop_ok = prop; model_eq = eq; nontrivial = List.length pops >= 2; finding = "-"; tags;
@@ -115,6 +123,34 @@ let check inp obs =
       detail = (if prop && ran = pred_runs then "" else
                 Printf.sprintf "%s %s while the harness held the %s lock (lock table predicts %s)" meth obs
                   (if hold_x then "exclusive" else "shared") (if pred_runs then "ran" else "blocked")) }
+  | ["shape"; meth] ->
+    let good = (obs = "1:1:1:0:1:1") in
+    let table_ok = lru_discipline_ok in
+    { prop_ok = good; model_eq = good || not table_ok; nontrivial = true; finding = "-";
+      tags = "shape," ^ meth ^ (if good then "-one-critical-section" else "-bad-shape");
+      detail = (if good then "" else
+                Printf.sprintf "%s: critical-section shape %s (expected 1:1:1:0:1:1): the method is not one exclusive critical section around its whole body" meth obs) }
   | _ -> fail "C35: bad input %s" inp
 
-let () = run_driver check
+(* vm_compute cross-check: a sequential case recomputed inside Coq on all three executable levels *)
+let coq_op = function
+  | Get k -> "Get " ^ coq_n k
+  | Put (k, v) -> Printf.sprintf "Put %s %s" (coq_n k) (coq_n v)
+  | Dump -> "Dump"
+let coq_res = function
+  | RVal v -> "RVal " ^ coq_n v
+  | RUnit -> "RUnit"
+  | RPanic -> "RPanic"
+  | RList l -> "RList [" ^ String.concat "; " (List.map (fun (k, v) -> Printf.sprintf "(%s, %s)" (coq_n k) (coq_n v)) l) ^ "]"
+let coq inp obs =
+  match split_ws inp with
+  | "seq" :: cap :: ops when List.length ops <= 120 ->
+    let obs_l = split_ws (if obs = "-" then "" else obs) in
+    let parsed = List.map parse_res obs_l in
+    if List.length obs_l <> List.length ops || List.exists (fun r -> r = None) parsed then None
+    else Some (Printf.sprintf "vm_seq_case %s [%s] [%s]" (coq_n (n_of_hex cap))
+                 (String.concat "; " (List.map (fun o -> coq_op (parse_op o)) ops))
+                 (String.concat "; " (List.map (function Some r -> coq_res r | None -> "RPanic") parsed)))
+  | _ -> None
+
+let () = run_driver ~coq check
